@@ -224,7 +224,7 @@ def relational(ctx, cname):
     base_c = 'SO3' if cname == 'UnitQuaternion' else cname
     G = gens(base_c, tier, seed)
     if tier == 'quick':
-        G = G[:8]
+        G = alph.subset(G, 8, 3)
     C = getattr(sm, cname)
     mk = (lambda M: C(ref.r2q_ref(M))) if cname == 'UnitQuaternion' else (lambda M: C(M.copy()))
     PT = points(dim, tier)
@@ -249,6 +249,70 @@ def relational(ctx, cname):
                 ctx.fail(cid, site, 'mismatch', dict(Pm, law='assoc'), '(XY)p and X(Yp) differ by %.3g' % (np.abs(a - b).max() if a.shape == b.shape else float('nan')))
             if c.shape != p.shape or np.abs(c - p).max() > TOL * sc:
                 ctx.fail(cid, site, 'mismatch', dict(Pm, law='inverse'), 'X^-1(Xp) differs from p by %.3g' % (np.abs(c - p).max() if c.shape == p.shape else float('nan')))
+
+
+def relational_multi(ctx, cname):
+    """the same laws on multi-valued poses: (XY)p = X(Yp) and X^-1(Xp) = p column by column"""
+    import spatialmath as sm
+    tier, seed = ctx.tier, ctx.seed
+    dim = int(cname[2]) if cname != 'UnitQuaternion' else 3
+    base_c = 'SO3' if cname == 'UnitQuaternion' else cname
+    G = gens(base_c, tier, seed)
+    C = getattr(sm, cname)
+    mk = (lambda Ms: C([ref.r2q_ref(M) for M in Ms])) if cname == 'UnitQuaternion' else (lambda Ms: C([M.copy() for M in Ms]))
+    PT = points(dim, tier)[:4]
+    for Mn in (2, 3, 5):
+        for start in range(0, len(G), 2 if tier == 'quick' else 1):
+            sx = [G[(start + 2 * j) % len(G)] for j in range(Mn)]
+            sy = [G[(start + 1 + 3 * j) % len(G)] for j in range(Mn)]
+            X, Y = mk([m for _, m in sx]), mk([m for _, m in sy])
+            for pn, p in PT:
+                cid = 'C06/%s/relmulti/M=%d/start=%d/p=%s' % (cname, Mn, start, pn)
+                if not ctx.want(cid):
+                    continue
+                ctx.case(cid, key=cid)
+                Pm = dict(cls=cname, M=Mn, point=pn, multi=1)
+                site = cname + '.mul'
+                ok, r = call(lambda: ((X * Y) * p.copy(), X.inv() * p.copy(), (X / Y) * p.copy()))
+                if not ok:
+                    ctx.fail(cid, site, 'raises:' + type(r).__name__, Pm, '%r' % (r,))
+                    continue
+                want_xy = np.stack([apply_ref(mx, apply_ref(my, p).ravel()).ravel() for (_, mx), (_, my) in zip(sx, sy)], axis=1)
+                inv = (lambda M: ref.inv_h(M)) if base_c[:2] == 'SE' else (lambda M: M.T)
+                want_inv = np.stack([apply_ref(inv(mx), p).ravel() for _, mx in sx], axis=1)
+                want_div = np.stack([apply_ref(mx, apply_ref(inv(my), p).ravel()).ravel() for (_, mx), (_, my) in zip(sx, sy)], axis=1)
+                tmax = max([float(np.linalg.norm(m[:dim, dim])) if m.shape[0] == dim + 1 else 0.0 for _, m in sx + sy])
+                sc = max(1.0, float(np.abs(p).max()), tmax)
+                for law, got, want in (('(XY)p', r[0], want_xy), ('X^-1 p', r[1], want_inv), ('(X/Y)p', r[2], want_div)):
+                    check_value(ctx, cid, site, dict(Pm, law=law), got, want, sc, shape=(dim, Mn))
+
+
+def udq_assoc(ctx):
+    """unit dual quaternions: (XY)p = X(Yp) and agreement with the matrix route after composition"""
+    import spatialmath as sm
+    tier, seed = ctx.tier, ctx.seed
+    G = gens('SE3', tier, seed)
+    if tier == 'quick':
+        G = alph.subset(G, 9, 3)
+    def mk(M):
+        q = ref.r2q_ref(M[:3, :3])
+        return sm.UnitDualQuaternion(sm.UnitQuaternion(q), sm.Quaternion(0.5 * ref.qmul(np.r_[0.0, M[:3, 3]], q)))
+    for (xn, Mx), (yn, My) in itertools.product(G, G):
+        for pn, p in points(3, tier)[:4]:
+            cid = 'C06/UnitDualQuaternion/rel/%s/%s/p=%s' % (xn, yn, pn)
+            if not ctx.want(cid):
+                continue
+            ctx.case(cid, key=cid)
+            Pm = dict(cls='UnitDualQuaternion', x=xn.split('|')[0], y=yn.split('|')[0], point=pn)
+            X, Y = mk(Mx), mk(My)
+            ok, r = call(lambda: ((X * Y) * p.copy(), X * (Y * p.copy())))
+            if not ok:
+                ctx.fail(cid, 'UnitDualQuaternion.mul', 'raises:' + type(r).__name__, Pm, '%r' % (r,))
+                continue
+            want = apply_ref(Mx, apply_ref(My, p).ravel())
+            sc = max(1.0, float(np.abs(p).max()), float(np.linalg.norm(Mx[:3, 3])), float(np.linalg.norm(My[:3, 3])))
+            check_value(ctx, cid, 'UnitDualQuaternion.mul', dict(Pm, law='(XY)p'), r[0], want, sc)
+            check_value(ctx, cid, 'UnitDualQuaternion.mul', dict(Pm, law='X(Yp)'), r[1], want, sc)
 
 
 def qvmul_cases(ctx):
@@ -277,8 +341,9 @@ def shards(tier, seed):
         K = 2 if tier == 'quick' else 8
         out += [('single', c, k, K) for k in range(K)]
     for c in ('SO2', 'SE2', 'SO3', 'SE3', 'UnitQuaternion'):
-        out += [('multi', c), ('rel', c)]
+        out += [('multi', c), ('rel', c), ('relmulti', c)]
     out.append(('qvmul',))
+    out.append(('udq',))
     return out
 
 
@@ -290,5 +355,9 @@ def run_shard(ctx, shard):
         multi_valued(ctx, shard[1])
     elif k == 'rel':
         relational(ctx, shard[1])
+    elif k == 'relmulti':
+        relational_multi(ctx, shard[1])
+    elif k == 'udq':
+        udq_assoc(ctx)
     else:
         qvmul_cases(ctx)
